@@ -15,7 +15,7 @@ namespace smt
         assigns[FALSE_var] = False;
         level[FALSE_var] = 0;
     }
-    SMT_EXPORT sat_core::sat_core(const sat_core &orig) : assigns(orig.assigns), level(orig.level.size()), exprs(orig.exprs), theories(orig.theories), bounds(orig.bounds), listeners(orig.listeners), listening(orig.listening)
+    SMT_EXPORT sat_core::sat_core(const sat_core &orig) : assigns(orig.assigns), inconsistent(orig.inconsistent), level(orig.level.size()), exprs(orig.exprs), theories(orig.theories), bounds(orig.bounds), listeners(orig.listeners), listening(orig.listening)
     {
         assert(orig.prop_q.empty());
         constrs.reserve(orig.constrs.size());
@@ -393,6 +393,8 @@ namespace smt
 
     SMT_EXPORT bool sat_core::propagate() noexcept
     {
+        if (inconsistent) // a root-level conflict has already been found..
+            return false;
         lit p;
     main_loop:
         while (!prop_q.empty())
@@ -410,7 +412,10 @@ namespace smt
                         prop_q.pop();
 
                     if (root_level())
+                    {
+                        inconsistent = true;
                         return false;
+                    }
                     std::vector<lit> no_good;
                     size_t bt_level;
                     // we analyze the conflict..
@@ -435,6 +440,7 @@ namespace smt
                         if (root_level())
                         {
                             th->cnfl.clear();
+                            inconsistent = true;
                             return false;
                         }
 
@@ -454,6 +460,7 @@ namespace smt
                 if (root_level())
                 {
                     th->cnfl.clear();
+                    inconsistent = true;
                     return false;
                 }
 
